@@ -90,12 +90,12 @@ func runC11(c *Ctx) {
 		}
 		c.Require("C11.R2 save-load-symmetry", "record fields", p.Pos(save.Pos()), "exactly the three persisted fields are saved", len(saved) == 3, fmt.Sprint(saved))
 		var setKey, getKey string
-		for _, call := range AllCalls(save) {
+		for _, call := range AllCallsDeep(save) {
 			if call.Common().IsInvoke() && call.Common().Method.Name() == "Set" {
 				setKey = T(ArgK(call, 0)).String()
 			}
 		}
-		for _, call := range AllCalls(load) {
+		for _, call := range AllCallsDeep(load) {
 			if call.Common().IsInvoke() && call.Common().Method.Name() == "Get" {
 				getKey = T(ArgK(call, 0)).String()
 			}
@@ -103,7 +103,7 @@ func runC11(c *Ctx) {
 		c.Require("C11.R2 save-load-symmetry", "record key", p.Pos(load.Pos()), "saved and loaded under the same key", setKey != "" && setKey == getKey, setKey+" vs "+getKey)
 		// the bytes stored are the record's encoding; the bytes decoded are the ones read
 		okEnc := false
-		for _, call := range AllCalls(save) {
+		for _, call := range AllCallsDeep(save) {
 			if call.Common().IsInvoke() && call.Common().Method.Name() == "Set" {
 				okEnc = strings.Contains(T(ArgK(call, 1)).String(), "rmt.info).Encode(")
 			}
@@ -115,9 +115,14 @@ func runC11(c *Ctx) {
 	{
 		prefixOf := func(t *Term) string {
 			// append([]byte{PREFIX}, …)
+			// the key itself is prefix ‖ rest — an append buried inside (the key of a value that
+			// was read and is now used as a key) says nothing about this key's family
+			if !(t.Op == "call" && t.Sym == "builtin:append") {
+				return "<none>"
+			}
 			s := t.String()
 			i := strings.Index(s, "builtin:append([")
-			if i < 0 {
+			if i != 0 {
 				return "<none>"
 			}
 			rest := s[i+len("builtin:append(["):]
@@ -128,7 +133,7 @@ func runC11(c *Ctx) {
 			return rest[:j]
 		}
 		written := map[string]bool{}
-		for _, call := range AllCalls(saveNode) {
+		for _, call := range AllCallsDeep(saveNode) {
 			if call.Common().IsInvoke() && call.Common().Method.Name() == "Set" {
 				written[prefixOf(T(ArgK(call, 0)))] = true
 			}
@@ -370,7 +375,7 @@ func funcNames(fs []*ssa.Function) string {
 // CallsInvoke lists interface-method invocations named m in fn.
 func CallsInvoke(fn *ssa.Function, m string) []ssa.CallInstruction {
 	var out []ssa.CallInstruction
-	for _, call := range AllCalls(fn) {
+	for _, call := range AllCallsDeep(fn) {
 		if call.Common().IsInvoke() && call.Common().Method.Name() == m {
 			out = append(out, call)
 		}
@@ -433,11 +438,49 @@ func checkFoldComplementsKeptSuffix(c *Ctx, rule string, pkgPrefix string) int {
 					}
 					break
 				}
+				var ranged []ssa.Value
+				// the fold may live in a function of its own: fold(start, part) — then `part` is what is folded
+				if hc, isCall := head.(*ssa.Call); isCall {
+					if g := hc.Common().StaticCallee(); g != nil && IsOwn(g) && len(g.Blocks) > 0 {
+						for k, a := range hc.Common().Args {
+							if _, isSl := a.Type().Underlying().(*types.Slice); !isSl || k >= len(g.Params) {
+								continue
+							}
+							if elemT, ok := a.Type().Underlying().(*types.Slice).Elem().Underlying().(*types.Slice); !ok || elemT == nil {
+								continue // a list of hashes, not the hash itself
+							}
+							readsElems := false
+							for _, r := range *g.Params[k].Referrers() {
+								if _, ok := r.(*ssa.IndexAddr); ok {
+									readsElems = true
+								}
+							}
+							if readsElems {
+								ranged = append(ranged, a)
+							}
+						}
+					}
+					if len(ranged) > 0 {
+						n++
+						P, k := T(tail.X).String(), T(tail.Low).String()
+						ok2 := true
+						got := []string{}
+						for _, r := range ranged {
+							rs, isSlice := valueRoot(r).(*ssa.Slice)
+							good := isSlice && rs.Low == nil && rs.High != nil && T(rs.X).String() == P && T(rs.High).String() == k
+							got = append(got, T(r).String())
+							if !good {
+								ok2 = false
+							}
+						}
+						c.Require(rule, FuncKey(fn)+": new path = [fold] ++ "+T(tail).String(), p.InstrPos(call), "the fold that heads the new path consumes exactly the prefix the kept suffix leaves out ("+P+"[:"+k+"])", ok2, "the fold reads "+strings.Join(got, ", "))
+					}
+					continue
+				}
 				phi, ok := head.(*ssa.Phi)
 				if !ok {
 					continue
 				}
-				var ranged []ssa.Value
 				seen := map[ssa.Value]bool{}
 				var walk func(v ssa.Value, depth int)
 				walk = func(v ssa.Value, depth int) {
